@@ -356,7 +356,17 @@ def gen_dag(rng, P=None, n=None):
                                               else [("failed",), ("completed",), ("res_eq", 1), ("and", ("failed",), ("res_ne", 0))])
         if rng.random() < P["p_delay"]:
             t.delay = rng.randint(1, 5)
+    if rng.random() < P.get("p_latevar", 0.0):
+        # a variable that exists only once some transition has published it (not declared in vars);
+        # the output references it, so rendering fails (and renders nothing for it) until then
+        cands = [(t, tr) for t in m.tasks.values() for tr in t.trans if not any(v == "w" for v, _ in tr.pubs)]
+        if cands:
+            for t, tr in rng.sample(cands, min(len(cands), rng.randint(1, 3))):
+                tr.pubs.append(("w", ("lit", "%s.%d.w" % (t.name, tr.idx))))
+            m.tags.add("latevar")
     m.output = [(v, ("ref", v), rng.choice(P["langs"])) for v in shared]
+    if "latevar" in m.tags:
+        m.output = [("w", ("ref", "w"), rng.choice(P["langs"]))] + (m.output if rng.random() < 0.5 else [])
     # some unique variables in the output too
     for v, _ in m.vars[3:6]:
         m.output.append((v, ("ref", v), "yaql"))
@@ -399,6 +409,38 @@ def gen_loop(rng, P=None):
             ex = ["noop"] if rng.random() < 0.5 else []
             t.trans.append(Tr(1, cond=("and", ("succeeded",), ("ctx_ge", "i", bound)), lang=lang, form=rng.randint(0, 3),
                               pubs=[("z", ("cat", "z", "|exit"))], do=ex))
+    if rng.random() < P.get("p_loop_join", 0.35):
+        # replace the chain by a fork/join body: b0 -> (p0, p1) -> bj (join) -> back to b0
+        for nm in body:
+            del m.tasks[nm]
+        body = ["b0", "p0", "p1", "bj"]
+        for nm in body:
+            m.tasks[nm] = Task(nm)
+        lang = rng.choice(P["langs"])
+        m.tasks["b0"].trans.append(Tr(0, cond=("succeeded",), lang=lang, do=["p0", "p1"]))
+        for k, nm in enumerate(("p0", "p1")):
+            c = rng.choice([("succeeded",), None, ("completed",), ("res_eq", 1)])
+            pubs = [("x", ("cat", "x", "|%s" % nm))] if rng.random() < 0.5 else []
+            m.tasks[nm].trans.append(Tr(0, cond=c, lang=rng.choice(P["langs"]), pubs=pubs, do=["bj"]))
+            if rng.random() < 0.3:
+                m.tasks[nm].trans.append(Tr(1, cond=("failed",), lang=lang, do=["noop"]))
+        m.tasks["bj"].join = rng.choice(["all", "all", 2])
+        t = m.tasks["bj"]
+        t.trans.append(Tr(0, cond=("and", ("succeeded",), ("ctx_lt", "i", bound)), lang=lang, form=rng.randint(0, 3),
+                          pubs=[("i", ("inc", "i")), ("y", ("cat", "y", "|loop"))], do=["b0"]))
+        t.trans.append(Tr(1, cond=("and", ("succeeded",), ("ctx_ge", "i", bound)), lang=lang, form=rng.randint(0, 3),
+                          pubs=[("z", ("cat", "z", "|exit"))], do=[]))
+        m.tags.add("loop_join")
+    if rng.random() < P.get("p_loop_fork", 0.35):
+        # the looping transition also forks to a task outside the loop that the exit transition reaches too
+        last = m.tasks[body[-1]]
+        for nm in ("rep", "arch"):
+            m.tasks[nm] = Task(nm)
+        last.trans[0].do = list(last.trans[0].do) + ["rep"]
+        last.trans[1].do = [d for d in last.trans[1].do if d != "noop"] + ["rep"]
+        m.tasks["rep"].trans.append(Tr(0, cond=rng.choice([("succeeded",), None]), lang=rng.choice(P["langs"]),
+                                       pubs=[("z", ("cat", "z", "|rep"))] if rng.random() < 0.5 else [], do=["arch"]))
+        m.tags.add("loop_fork")
     # single entry into the loop: from one non-items dag task on success, or as its own start
     cands = [n for n in names]
     if cands:
@@ -411,7 +453,7 @@ def gen_loop(rng, P=None):
 
 
 def _tag(m):
-    tags = set()
+    tags = set(t for t in m.tags if t in ("latevar", "loop", "loop_join", "loop_fork"))
     for t in m.tasks.values():
         if t.join is not None:
             tags.add("join")
